@@ -25,7 +25,10 @@ NUM_HEX = [b'0x0', b'0xff', b'0XFF', b'0xAbC', b'0x7fff', b'0x1f.8', b'0X1F.8', 
            b'0x.00000000000000008', b'0x1.00000000000000000001', b'0x.ffffffffffffffffffff']
 NUM_BIN = [b'0b0', b'0b1', b'0B1', b'0b1010', b'0b1.1', b'0B10.01', b'0b.1', b'0b.01',
            b'0b0.00000000000000001', b'0B1.10000000000000011', b'0b.000000000000000000001', b'0b1111111111111111.1111111111111111']
-NUMBERS = NUM_DEC + NUM_FRAC + NUM_EXP + NUM_HEX + NUM_BIN
+# numerals past what a double's exponent holds when integer and fraction digits are converted as integers
+NUM_HUGE = [b'0x.' + b'0' * 255 + b'8', b'0x.' + b'f' * 256, b'0X1' + b'0' * 256, b'0b.' + b'0' * 1023 + b'1',
+            b'0.' + b'0' * 400 + b'1', b'1' + b'0' * 400, b'0b1' + b'0' * 1100]
+NUMBERS = NUM_DEC + NUM_FRAC + NUM_EXP + NUM_HEX + NUM_BIN + NUM_HUGE
 
 STRINGS_DQ = [b'""', b'"s"', b'"a b"', b'"it\'s"', b'"\\""', b'"\\\\"', b'"\\n\\t"', b'"\x8e\x97"', b'"--x"', b'"//x"',
               b'"]]"', b'"\\65"', b'"\\065"', b'"\\0"', b'"\\0001"', b'"\\10x"', b'"\\255"', b'"\\x41"', b'"\\x4a9"',
